@@ -430,6 +430,38 @@ fn failing_step_with_colliding_inspection(acc: &mut Acc) {
     }
 }
 
+/// Round 14: "a sub-layout's own inspections are run" - and a sub-layout whose inspection does not
+/// succeed has not passed complete verification. C08's shape S3 (step s0 delegated to a functionary
+/// whose sub-layout has step `in` and its own inspection `j0`), everything valid, the sub-layout's
+/// inspection running each command of C08's command alphabet in a private working directory.
+fn sublayout_inspection_outcomes(acc: &mut Acc) {
+    for inner_cmd in crate::props::c08::COMMANDS {
+        let case = json!({"shape": "S3", "faults": [], "cmd": "exit0", "rule": "none", "cmd_pos": 0, "inner_cmd": inner_cmd});
+        let r = crate::worker::run_cases("c08", std::slice::from_ref(&case), 120);
+        acc.evaluations += 1;
+        acc.nontrivial += 1;
+        let must_fail = matches!(inner_cmd, "exit1" | "exit2" | "exit126" | "exit255" | "kill9" | "notfound" | "create-exit3");
+        match &r[0] {
+            crate::worker::WorkerResult::Done(out) => {
+                let accepted = out["detail"].get("ok").is_some();
+                if accepted {
+                    acc.accepting += 1;
+                }
+                if must_fail && accepted {
+                    acc.violation(
+                        &format!("accepted:sub-layout-inspection-did-not-succeed:{inner_cmd}"),
+                        "a delegated step was accepted although the inspection of its sub-layout did not run to a zero exit status",
+                        || json!({"sublayout_inspection": inner_cmd, "observed": out}),
+                    );
+                } else {
+                    acc.outcome(if accepted { "sub-layout-inspection-succeeds-accepted" } else if must_fail { "sub-layout-inspection-fails-rejected" } else { "sub-layout-inspection-succeeds-rejected(one-directional: not judged)" });
+                }
+            }
+            _ => crate::util::machinery_error("C15: worker for the sub-layout inspection case died"),
+        }
+    }
+}
+
 fn summary_with_colliding_inspection(acc: &mut Acc) {
     let case = json!({"shape": "S4", "faults": [], "cmd": "exit0", "rule": "none", "cmd_pos": 0});
     let r = crate::worker::run_cases("c08", std::slice::from_ref(&case), 120);
@@ -624,10 +656,11 @@ pub fn run(tier: Tier) -> i32 {
     plain_summaries(&mut acc);
     summary_with_colliding_inspection(&mut acc);
     failing_step_with_colliding_inspection(&mut acc);
+    sublayout_inspection_outcomes(&mut acc);
     crate::envprobe::judge(&mut acc, "C15:", &mut c.extra);
     c.acc = acc;
     c.rule = "state = (outer shape in {delegated step alone, delegated step followed by a step that MATCHes its products, a step followed by the delegated step, delegated step alone whose first inner step has no materials and whose last has no products}, inner sequence of 1..3 steps, 2 or 3 delegation levels, set of active deviations); transition = toggle one deviation starting from the fully valid tree; each state is one in_toto_verify run on a freshly built directory tree; non-trivial = at least one deviation".into();
-    c.bound_completed = format!("{} trees x all sets of <= {max_dev} compatible deviations out of {}; plain layouts of 1..3 steps for the summary clause; a threshold-1 step with two delegating functionaries of whom one (the smaller, then the larger key id) hands in a validly signed sub-layout that fails its own verification in one of 5 ways", trees.len(), DEVIATIONS.len());
+    c.bound_completed = format!("{} trees x all sets of <= {max_dev} compatible deviations out of {}; plain layouts of 1..3 steps for the summary clause; a threshold-1 step with two delegating functionaries of whom one (the smaller, then the larger key id) hands in a validly signed sub-layout that fails its own verification in one of 5 ways; a valid delegation whose sub-layout's inspection runs each of 11 commands (7 of them not succeeding)", trees.len(), DEVIATIONS.len());
     c.assume("each deviation alone invalidates the sub-layout evidence (they were chosen that way); ring trusted");
     c.finish()
 }
@@ -638,6 +671,12 @@ pub fn replay(case: &Value) -> Value {
         surplus_leg(&mut acc);
         let hit = acc.violations.values().find(|v| v.witness["fault"] == case["fault"]).map(|v| v.key.clone());
         return json!({"violation": hit.or_else(|| acc.violations.keys().next().cloned())});
+    }
+    if case.get("sublayout_inspection").is_some() {
+        let mut acc = Acc::new();
+        sublayout_inspection_outcomes(&mut acc);
+        let want = format!("accepted:sub-layout-inspection-did-not-succeed:{}", case["sublayout_inspection"].as_str().unwrap_or(""));
+        return json!({"violation": acc.violations.keys().find(|k| **k == want).or_else(|| acc.violations.keys().next())});
     }
     if case.get("inspection_named_like_step").is_some() {
         let mut acc = Acc::new();
